@@ -107,6 +107,25 @@ def busy_sky(rng, n):
     ops.append("T dump")
     return ops
 
+def alias_history(rng, rx=None):
+    """the CPR alias: an aircraft published one latitude zone (6 or 360/59 degrees) north or south of the receiver, then reports from next to the
+    receiver - the mixed pair decodes to a plausible position near the receiver, more than 100 km from the published one, which the jump
+    limit must reject whatever its distance to the receiver is; then the aircraft continues next to the receiver (fresh pair)"""
+    rx = rx or rng.choice([(39.0, -77.0), (52.3, 4.8), (-33.9, 151.2), (0.5, 179.5)])
+    ops = ["T reset %s %s %s" % (rx[0], rx[1], rng.choice([1000, 1500, 800]))]
+    f = Flight(rng, rng.bits(24), rx, plain=True)
+    z = rng.choice([Fr(6), Fr(360, 59)]) * rng.choice([-1, 1])
+    f.lat = max(Fr(-89), min(Fr(89), Fr(rx[0]) + z + Fr(rng.below(100) - 50, 1000))); f.lon = Fr(rx[1]) + Fr(rng.below(100) - 50, 1000)
+    first = rng.below(2)
+    ops.append(hexop("T act", f.position(rng, odd=first))); ops.append(hexop("T act", f.position(rng, odd=1 - first)))
+    # next to the receiver
+    f.lat = Fr(rx[0]) + Fr(rng.below(400) - 200, 1000); f.lon = ((Fr(rx[1]) + Fr(rng.below(400) - 200, 1000) + 180) % 360) - 180
+    p = rng.below(2)
+    for odd in (p, 1 - p, p, 1 - p):
+        ops.append(hexop("T act", f.position(rng, odd=odd))); f.step(rng)
+    ops.append("T dump")
+    return ops
+
 def history(rng, n_ops, n_planes=4, with_time=True, rx=None, rng_range=None, addrs=None):
     rx = rx or rng.choice([(39.0, -77.0), (52.3, 4.8), (-33.9, 151.2), (69.7, 19.0), (0.5, 179.5), (64.1, -21.9)])
     rng_range = rng_range or rng.choice([500, 500, 300, 150, 1000, 800, 1500])
@@ -135,8 +154,13 @@ def history(rng, n_ops, n_planes=4, with_time=True, rx=None, rng_range=None, add
         elif r < 72:
             ops.append(hexop("T act", f.frame(me_ident(1 + rng.below(4), rng.below(8), rng.choice(names)))))
         elif r < 82:
-            ops.append(hexop("T act", f.frame(me_velocity(rng.choice([1, 1, 2, 3, 0]), rng.below(2), rng.choice([0, 1, 2, 100, 600, 1023]), rng.below(2),
-                                                             rng.choice([0, 1, 50, 400, 1023]), rng.below(2), rng.choice([0, 1, 2, 33, 511])))))
+            # velocity: mostly a fresh random report; one time in three the aircraft's previous components again with another vertical rate
+            # (same heading and speed, different rate: every attribute of the latest report must win, not only the ones that changed)
+            last = getattr(f, "last_vel", None)
+            if last and rng.chance(1, 3): v = last[:5] + (rng.below(2), rng.choice([1, 2, 33, 200, 511]))
+            else: v = (rng.choice([1, 1, 2, 3, 0]), rng.below(2), rng.choice([0, 1, 2, 100, 600, 1023]), rng.below(2), rng.choice([0, 1, 50, 400, 1023]), rng.below(2), rng.choice([0, 1, 2, 33, 511]))
+            f.last_vel = v
+            ops.append(hexop("T act", f.frame(me_velocity(*v))))
         elif r < 87:
             tc = rng.choice([0, 5, 23, 24, 28, 29, 30, 31])
             b = rand_frame(rng, f.df, tc=tc); put(b, 8, 24, f.icao)
